@@ -273,6 +273,7 @@ archive_write_gnutar_header(struct archive_write *a,
      struct archive_entry *entry)
 {
 	char buff[512];
+	char mainbuff[512];
 	int r, ret, ret2 = ARCHIVE_OK;
 	char tartype;
 	struct gnutar *gnutar;
@@ -476,6 +477,32 @@ archive_write_gnutar_header(struct archive_write *a,
 			ret2 = ARCHIVE_WARN;
 		}
 	}
+	/* Decide whether the entry can be stored at all before the first
+	 * byte ('K'/'L' long-name records included) is written: a refused
+	 * entry must leave nothing behind. */
+	if (archive_entry_hardlink_is_set(entry)) {
+		tartype = '1';
+	} else
+		switch (archive_entry_filetype(entry)) {
+		case AE_IFREG: tartype = '0' ; break;
+		case AE_IFLNK: tartype = '2' ; break;
+		case AE_IFCHR: tartype = '3' ; break;
+		case AE_IFBLK: tartype = '4' ; break;
+		case AE_IFDIR: tartype = '5' ; break;
+		case AE_IFIFO: tartype = '6' ; break;
+		default: /* AE_IFSOCK and unknown */
+			__archive_write_entry_filetype_unsupported(
+                            &a->archive, entry, "gnutar");
+			ret = ARCHIVE_FAILED;
+			goto exit_write_header;
+		}
+	ret = archive_format_gnutar_header(a, mainbuff, entry, tartype);
+	if (ret < ARCHIVE_WARN)
+		goto exit_write_header;
+	if (ret2 < ret)
+		ret = ret2;
+	ret2 = ret;
+
 	if (gnutar->linkname_length > GNUTAR_linkname_size) {
 		size_t length = gnutar->linkname_length + 1;
 		struct archive_entry *temp = archive_entry_new2(&a->archive);
@@ -534,29 +561,8 @@ archive_write_gnutar_header(struct archive_write *a,
 			goto exit_write_header;
 	}
 
-	if (archive_entry_hardlink_is_set(entry)) {
-		tartype = '1';
-	} else
-		switch (archive_entry_filetype(entry)) {
-		case AE_IFREG: tartype = '0' ; break;
-		case AE_IFLNK: tartype = '2' ; break;
-		case AE_IFCHR: tartype = '3' ; break;
-		case AE_IFBLK: tartype = '4' ; break;
-		case AE_IFDIR: tartype = '5' ; break;
-		case AE_IFIFO: tartype = '6' ; break;
-		default: /* AE_IFSOCK and unknown */
-			__archive_write_entry_filetype_unsupported(
-                            &a->archive, entry, "gnutar");
-			ret = ARCHIVE_FAILED;
-			goto exit_write_header;
-		}
-
-	ret = archive_format_gnutar_header(a, buff, entry, tartype);
-	if (ret < ARCHIVE_WARN)
-		goto exit_write_header;
-	if (ret2 < ret)
-		ret = ret2;
-	ret2 = __archive_write_output(a, buff, 512);
+	ret = ret2;
+	ret2 = __archive_write_output(a, mainbuff, 512);
 	if (ret2 < ARCHIVE_WARN) {
 		ret = ret2;
 		goto exit_write_header;
